@@ -109,20 +109,20 @@ theorem follow_of_resolved (fs : Fs) (fuel : Nat) (p : Path) (h : Resolved fs p)
   have := walk_of_resolved fs fuel [] p [] (by simpa using h) hn
   simpa [follow] using this
 
-theorem resolvePath_inl_not_file (fs : Fs) (fuel : Nat) (cfg : Cfg) (filename : Str) (o : Out)
-    (h : resolvePath fs fuel cfg filename = .inl o) : ∀ p id enc, o ≠ .file p id enc := by
+theorem resolvePath_inl_not_file (fix : Bool) (fs : Fs) (fuel : Nat) (cfg : Cfg) (filename : Str) (o : Out)
+    (h : resolvePathG fix fs fuel cfg filename = .inl o) : ∀ p id enc, o ≠ .file p id enc := by
   intro p id enc ho
   subst ho
-  unfold resolvePath at h
+  unfold resolvePathG at h
   simp only at h
   repeat' split at h
   all_goals simp at h
 
-theorem resolvePath_inr_nofollow (fs : Fs) (fuel : Nat) (cfg : Cfg) (filename : Str) (p' : Path)
-    (hf : cfg.follow = false) (h : resolvePath fs fuel cfg filename = .inr p') :
+theorem resolvePath_inr_nofollow (fix : Bool) (fs : Fs) (fuel : Nat) (cfg : Cfg) (filename : Str) (p' : Path)
+    (hf : cfg.follow = false) (h : resolvePathG fix fs fuel cfg filename = .inr p') :
     realpath fs fuel (cfg.root ++ pathSegs filename) = .ok p' ∧ cfg.root.isPrefixOf p' = true ∧
-      statF fs fuel p' ≠ .dir := by
-  unfold resolvePath at h
+      statF fs fuel p' ≠ .dir ∧ (fix = true → isFixpoint fs fuel p' = true) := by
+  unfold resolvePathG at h
   simp only [hf] at h
   repeat' split at h
   all_goals cases h
@@ -131,15 +131,22 @@ theorem resolvePath_inr_nofollow (fs : Fs) (fuel : Nat) (cfg : Cfg) (filename : 
   split at heq
   · next q hq =>
     split at heq
-    · next hpre => cases heq; exact ⟨hq, hpre, hnd⟩
     · cases heq
+    · next hfx =>
+      split at heq
+      · next hpre =>
+        cases heq
+        refine ⟨hq, hpre, hnd, ?_⟩
+        intro hfix
+        simpa [hfix] using hfx
+      · cases heq
   · cases heq
 
-theorem resolvePath_inr_follow (fs : Fs) (fuel : Nat) (cfg : Cfg) (filename : Str) (p' : Path)
-    (hf : cfg.follow = true) (h : resolvePath fs fuel cfg filename = .inr p') :
+theorem resolvePath_inr_follow (fix : Bool) (fs : Fs) (fuel : Nat) (cfg : Cfg) (filename : Str) (p' : Path)
+    (hf : cfg.follow = true) (h : resolvePathG fix fs fuel cfg filename = .inr p') :
     cfg.root.isPrefixOf (lexNorm (cfg.root ++ pathSegs filename)) = true ∧
       realpath fs fuel (lexNorm (cfg.root ++ pathSegs filename)) = .ok p' := by
-  unfold resolvePath at h
+  unfold resolvePathG at h
   simp only [hf] at h
   repeat' split at h
   all_goals cases h
@@ -152,10 +159,10 @@ theorem resolvePath_inr_follow (fs : Fs) (fuel : Nat) (cfg : Cfg) (filename : St
     · cases heq
   · cases heq
 
-theorem resolvePath_listing (fs : Fs) (fuel : Nat) (cfg : Cfg) (filename : Str) (p : Path)
-    (h : resolvePath fs fuel cfg filename = .inl (.listing p)) :
+theorem resolvePath_listing (fix : Bool) (fs : Fs) (fuel : Nat) (cfg : Cfg) (filename : Str) (p : Path)
+    (h : resolvePathG fix fs fuel cfg filename = .inl (.listing p)) :
     cfg.showIndex = true ∧ cfg.root.isPrefixOf p = true ∧ statF fs fuel p = .dir := by
-  unfold resolvePath at h
+  unfold resolvePathG at h
   simp only at h
   repeat' split at h
   all_goals cases h
@@ -169,6 +176,34 @@ theorem realpath_noloop (fs : Fs) (fuel : Nat) (p q : Path) (hnl : ∀ pp, follo
   · cases h
   · cases h
   · next pp hpp => exact absurd hpp (hnl pp)
+
+/-- a path that `Path.resolve()` maps to itself was not cut short by a symlink loop -/
+theorem realpath_fixpoint (fs : Fs) (fuel : Nat) (p : Path) (h : realpath fs fuel p = .ok p) :
+    follow fs fuel p = .ok p := by
+  unfold realpath at h
+  split at h
+  · next q hq => cases h; exact hq
+  · cases h
+  · cases h
+  · next pp hpp =>
+    split at h
+    · next q hq =>
+      injection h with h
+      rw [h] at hq
+      rw [hpp] at hq
+      cases hq
+    · cases h
+    · cases h
+
+theorem isFixpoint_follow (fs : Fs) (fuel : Nat) (p : Path) (h : isFixpoint fs fuel p = true) :
+    follow fs fuel p = .ok p := by
+  unfold isFixpoint at h
+  split at h
+  · next p2 hp2 =>
+    have : p2 = p := by simpa using h
+    subst this
+    exact realpath_fixpoint fs fuel _ hp2
+  · cases h
 
 theorem statF_of_resolved (fs : Fs) (fuel : Nat) (p : Path) (h : Resolved fs p) (hn : NormalPath p)
     (hd : fs.lstat p = .dir) : statF fs fuel p = .dir := by
